@@ -403,6 +403,12 @@ class Interface(object):
         self.method_descriptor_id_to_key = dict(((id(v[0]), k)
                                     for k,v in self.service_method_map.items()))
 
+        # every namespace gets its prefix now and not when a request or the
+        # first wsdl build happens to need it: otherwise the numbering depends
+        # on which one comes first.
+        for cls in self.classes.values():
+            self.get_namespace_prefix(cls.get_namespace())
+
         logger.debug("From this point on, you're not supposed to make any "
                      "changes to the class and method structure of the exposed "
                      "services.")
